@@ -497,8 +497,16 @@ impl Sweep {
         };
         match z {
             Ok(n) if self.buf[..n] == s[..] => {}
-            _ => {
+            Ok(_) => {
                 self.fail(v, "bytes differ from serde_json");
+                return;
+            }
+            Err(SerError::KeyMustBeAString) => {
+                self.fail(v, "refused although every key is a string, char, integer or unit variant");
+                return;
+            }
+            Err(SerError::BufferTooSmall) => {
+                self.fail(v, "BufferTooSmall in a 4096-byte buffer");
                 return;
             }
         }
